@@ -6,21 +6,34 @@ CHECK = {
     "id": "C09",
     "level": "fault_enumeration",
     "engine": "E2",
-    "technique": "every stop point and every chain of stop points of whole runs of the real executable "
-                 "(--number-of-steps / --restart), byte comparison of restart dumps and snapshots with the "
-                 "uninterrupted run; write -> read -> write of every restartable class into poisoned memory",
+    "technique": "every stop point and every chain of stop points (1 to 5 restarts in a row, odd and even) of whole "
+                 "runs of the real executable (--number-of-steps / --restart), byte comparison of restart dumps, "
+                 "snapshots and the source log with the uninterrupted run; write -> read -> write of every "
+                 "restartable class into poisoned memory, continued over three dump/restore generations",
     "level_text": "The fault is 'the process stops after step k and is restarted from the dump': every k in 1..5 of a "
                   "6-step pure-hydro run (continued to every later step), and every subset of {1..5} as a chain of "
-                  "stops, is executed with the real program on boxes of both inverse-cell-size classes x 3 subgrid "
-                  "layouts x optional components; each dump and snapshot of a restarted run is compared byte for "
-                  "byte with the uninterrupted run (timers masked, re-seeded seed field predicted). All crash points "
-                  "of the bounded history are enumerated, hence fault enumeration.",
-    "level_note": "One thread, radiation off, 6^3 cells (one box 10x10x12), N = 6 steps. The geometry alphabet is selected at run time so that it contains boxes on which n/s != 1/(s/n) and anisotropic boxes on which the association orders of dx*dy*dz disagree (at least two of each). Dumps are only written between steps, so the "
-                  "crash points are the step boundaries. The component part restores every object into memory "
-                  "filled with two different byte patterns, which makes members the restart constructor forgets "
-                  "visible deterministically.",
+                  "stops, is executed with the real program on boxes of both inverse-cell-size classes x 4 subgrid "
+                  "layouts (1x1x1, 2x1x1 periodic in x, 2x2x1, 1x2x3 periodic in z with 6x3x2 resp. 10x5x4 cells per "
+                  "subgrid) x optional components (mask, turbulence forcing, supernova source with feedback, random "
+                  "source list without and with its log file and subgrid copies, external gravity; thorough: "
+                  "combinations); each dump, snapshot and source log of a restarted run is compared byte for byte "
+                  "with the uninterrupted run (timers masked, re-seeded seed field predicted). All crash points of the "
+                  "bounded history are enumerated, hence fault enumeration.",
+    "level_note": "One thread, radiation off, 6^3 cells (one box 10x10x12), N = 6 steps. The geometry alphabet is "
+                  "selected at run time so that it contains boxes on which n/s != 1/(s/n) and anisotropic boxes on "
+                  "which the association orders of dx*dy*dz disagree (at least two of each). Every optional component "
+                  "is configured with parameters that all differ from each other and from the code's defaults (mask "
+                  "scale factors 0.3/0.8/0.6, centre fractions 0.55/0.45/0.6, delta t > 0; forcing window, peak, "
+                  "concentration, seed, start; source box per axis; photon seed 4711), listed in the evidence "
+                  "(component_parameters). Quick: chains on six configurations (one per component, both inverse-"
+                  "cell-size classes, three layouts), layout 1x2x3 on the first geometry of each of five kinds; "
+                  "thorough: chains and 1x2x3 everywhere. Dumps are only written between steps, so the crash points "
+                  "are the step boundaries. The component part restores every object into memory filled with two "
+                  "different byte patterns (members the restart constructor forgets become visible "
+                  "deterministically), over states with 0, 1, 2 and >= 3 of every repeatable thing and with "
+                  "different values per axis / per quantity, and repeats dump/restore for three generations.",
     "quick_deadline": 90,
-    "thorough_deadline": 900,
+    "thorough_deadline": 1100,
     "parts": [
         {"name": "components", "bin": "c09_components", "share": 0.1},
         {"name": "runs", "bin": "c09_restart", "share": 0.9,
